@@ -956,7 +956,7 @@ func (e *Enc) atCallAssertsPhase(site ssa.Instruction, key string, args []Value,
 		if err != nil && !ac.Assume && strings.Contains(err.Error(), "unknown identifier") {
 			// the call site the clause now lands on does not have the clause's variables in scope: the code
 			// the clause was written for is gone
-			e.assertOb(fmt.Sprintf("at@%s#%d.%d", shortName(ac.Callee), ac.Ord, i+1), tFalse, "assertion before call to "+ac.Callee+" cannot be stated at this call site ("+err.Error()+"): "+ac.C.Src, posOf(site))
+			e.unstatable = append(e.unstatable, fmt.Sprintf("%s: at call %s#%d: %v (in `%s`)", e.fnLabel, ac.Callee, ac.Ord, err, ac.C.Src))
 			continue
 		}
 		if err != nil {
